@@ -198,6 +198,9 @@ def c05(tier):
     n = kb.kb6(P, C)
     C.extra["index_sites"] = kb.kb5(P, C)
     kb.sc4(P, C)
+    # which core reads centers[D]/order[D]/strides[D] is decided by the dispatch table
+    dp.dp(P, C)
+    dp.dp(P, C, variant="driver-noevaltmpl")
     kb.sc123(P, C)      # the centre range (clamps, adjustment, search interval) is what keeps the coefficient walk in bounds
     C.extra["vla_declarators"] = n
     C.extra["units"] = sorted(P.units.keys())
@@ -301,6 +304,7 @@ def c14(tier):
     selftest.run(P, C, ('ts2',))
     uw.uw1(P, C)
     uw.uw2(P, C)
+    uw.uw4(P, C)
     ts.ts2(P, C, only=("convolve",), rule_floor=1)
     cw.cw1(P, C, only=("splinetable_convolve",))
     C.extra["units"] = sorted(P.units.keys())
@@ -342,6 +346,9 @@ def c06(tier):
     fs.run(P, C)
     fs.fs6(P, C)
     fs.fs7(P, C)
+    # auxiliary values survive the round trip only if write_key refuses what a card cannot hold
+    ax.ks1(P, C)
+    ax.uw3(P, C)
     ax.fs4(P, C)
     C.extra["units"] = sorted(P.units.keys())
     return C.finish()
